@@ -640,6 +640,8 @@ def normalise(src, rules, log):
             src = n4_macros(src, log)
         elif r == "n4panic":
             src = n4_macros(src, log, panic_helper="vx_panic")
+        elif r == "n4diverge":
+            src = n4_macros(src, log, panic_helper="vx_diverge")
         elif r == "n2":
             src = n2_let_chains(src, log)
         elif r == "n1":
